@@ -108,7 +108,7 @@ def table(inp):
                     ('command', adtl('v2::model::Command', cmd, [])),
                     ('protocol', adtl('v2::model::Protocol', trn, [])),
                     ('addresses', addresses(inp, fam))])
-                row('accept/%s/%s/%s' % (cmd, fam, trn), cond, C02=OK(hdr), C04=OK(hdr), C17=OK(ANY))
+                row('accept/%s/%s/%s' % (cmd, fam, trn), cond, C02=OK(hdr), C04=OK(hdr), C14=OK(hdr), C17=OK(ANY))
     return rows
 
 
